@@ -31,6 +31,7 @@ import (
 	"k8s.io/apimachinery/pkg/api/resource"
 	metav1 "k8s.io/apimachinery/pkg/apis/meta/v1"
 	"k8s.io/apimachinery/pkg/runtime/schema"
+	"k8s.io/apimachinery/pkg/types"
 	"k8s.io/apimachinery/pkg/util/intstr"
 	"k8s.io/client-go/kubernetes/scheme"
 	"k8s.io/client-go/tools/record"
@@ -298,6 +299,8 @@ func c20ValEq(a, b c20Val) bool {
 // list as a whole or is laid over it element by element (which is what the JSON overlay does for lists of
 // objects). Both readings are accepted: length and every leaf the top layer sets are binding; a leaf the top
 // layer's element leaves unset may be absent or carry the value of the lower layer's element at the same index.
+var c20InheritedOtherName bool // set by c20SliceOK, read and reset by the (single-goroutine) caller for a class counter
+
 func c20SliceOK(top, under []c20Leaves, act c20Val) (bool, bool) {
 	got, ok := act.v.([]c20Leaves)
 	if act.kind != c20KSlice || !ok || len(got) != len(top) {
@@ -317,6 +320,11 @@ func c20SliceOK(top, under []c20Leaves, act c20Val) (bool, bool) {
 			if i < len(under) {
 				if u, ok := under[i][p]; ok && c20ValEq(u, g) {
 					inherited = true
+					if tn, ok1 := top[i]["/name"]; ok1 {
+						if un, ok2 := under[i]["/name"]; ok2 && !c20ValEq(tn, un) {
+							c20InheritedOtherName = true // observation only, see the class counter
+						}
+					}
 					continue
 				}
 			}
@@ -1325,14 +1333,76 @@ type c20Client struct {
 	client.Client
 	cm    *corev1.ConfigMap
 	nodes []*corev1.Node
+	// delivered mode: the NodeSLO objects as an API server keeps them - serialized; every Get decodes into a fresh
+	// object, so what Reconcile reads is what an earlier Reconcile stored, not a shared Go pointer
+	nodeSLOs map[string][]byte
+	writes   int
+	// start-up race test: called inside the Get of the ConfigMap (the window between IsCfgAvailable's check and its sync)
+	onConfigMapGet func()
 }
 
 func (c *c20Client) Get(_ context.Context, key client.ObjectKey, obj client.Object, _ ...client.GetOption) error {
-	if out, ok := obj.(*corev1.ConfigMap); ok && c.cm != nil && key.Name == c.cm.Name && key.Namespace == c.cm.Namespace {
-		c.cm.DeepCopyInto(out)
-		return nil
+	switch out := obj.(type) {
+	case *corev1.ConfigMap:
+		if c.onConfigMapGet != nil {
+			hook := c.onConfigMapGet
+			c.onConfigMapGet = nil
+			defer hook() // the object read is the one present BEFORE the hook delivers a newer version
+		}
+		if c.cm != nil && key.Name == c.cm.Name && key.Namespace == c.cm.Namespace {
+			c.cm.DeepCopyInto(out)
+			return nil
+		}
+		return apierrors.NewNotFound(schema.GroupResource{Resource: "configmaps"}, key.Name)
+	case *corev1.Node:
+		for _, n := range c.nodes {
+			if n.Name == key.Name {
+				n.DeepCopyInto(out)
+				return nil
+			}
+		}
+		return apierrors.NewNotFound(schema.GroupResource{Resource: "nodes"}, key.Name)
+	case *slov1alpha1.NodeSLO:
+		if raw, ok := c.nodeSLOs[key.Name]; ok {
+			*out = slov1alpha1.NodeSLO{}
+			return json.Unmarshal(raw, out)
+		}
+		return apierrors.NewNotFound(schema.GroupResource{Group: "slo.koordinator.sh", Resource: "nodeslos"}, key.Name)
 	}
-	return apierrors.NewNotFound(schema.GroupResource{Resource: "configmaps"}, key.Name)
+	return apierrors.NewNotFound(schema.GroupResource{Resource: "unknown"}, key.Name)
+}
+
+func (c *c20Client) put(obj client.Object, mustExist bool) error {
+	nodeSLO, ok := obj.(*slov1alpha1.NodeSLO)
+	if !ok {
+		return fmt.Errorf("harness client: unexpected write of %T", obj)
+	}
+	gr := schema.GroupResource{Group: "slo.koordinator.sh", Resource: "nodeslos"}
+	_, exists := c.nodeSLOs[nodeSLO.Name]
+	if mustExist && !exists {
+		return apierrors.NewNotFound(gr, nodeSLO.Name)
+	}
+	if !mustExist && exists {
+		return apierrors.NewAlreadyExists(gr, nodeSLO.Name)
+	}
+	raw, err := json.Marshal(nodeSLO)
+	if err != nil {
+		return err
+	}
+	if c.nodeSLOs == nil {
+		c.nodeSLOs = map[string][]byte{}
+	}
+	c.nodeSLOs[nodeSLO.Name] = raw
+	c.writes++
+	return nil
+}
+
+func (c *c20Client) Create(_ context.Context, obj client.Object, _ ...client.CreateOption) error {
+	return c.put(obj, false)
+}
+
+func (c *c20Client) Update(_ context.Context, obj client.Object, _ ...client.UpdateOption) error {
+	return c.put(obj, true)
 }
 
 func (c *c20Client) List(_ context.Context, list client.ObjectList, _ ...client.ListOption) error {
@@ -1389,7 +1459,12 @@ func c20ConfigMap(data map[string]string, rv int) *corev1.ConfigMap {
 // judged section is drawn per case, histories are longer and aim at removing a section (or the whole ConfigMap) and
 // bringing an EARLIER text of it back byte for byte. All draws added for restore mode are guarded by the flag, so the
 // draw sequence (and the recorded fail files) of the five per-section tests does not change.
-func c20Run(t *testing.T, focusID string, restore bool) {
+//
+// mode "delivered" (unit "delivered"): the observable is the NodeSLO object STORED in the API (controller-runtime fake
+// client) after the real NodeSLOReconciler.Reconcile ran for the node - first reconcile creates it, later ones take the
+// update path against the previously stored object - and histories also relabel nodes. Judged section drawn per case.
+func c20Run(t *testing.T, focusID string, runMode string) {
+	restore, delivered := runMode == "reapply", runMode == "delivered"
 	c20Quiet()
 	secs := c20AllSections()
 	var fixedFocus *c20Section
@@ -1399,8 +1474,8 @@ func c20Run(t *testing.T, focusID string, restore bool) {
 		}
 	}
 	unit := focusID
-	if restore {
-		unit = "reapply"
+	if runMode != "" {
+		unit = runMode
 	}
 	rec := vk.New(t, "C20", unit)
 	if fixedFocus != nil {
@@ -1439,6 +1514,8 @@ func c20Run(t *testing.T, focusID string, restore bool) {
 		var nEvents int
 		if restore {
 			nEvents = rapid.IntRange(3, 7).Draw(t, "events")
+		} else if delivered {
+			nEvents = rapid.IntRange(2, 6).Draw(t, "events")
 		} else {
 			nEvents = rapid.IntRange(1, 5).Draw(t, "events")
 		}
@@ -1466,13 +1543,36 @@ func c20Run(t *testing.T, focusID string, restore bool) {
 
 		var handler *SLOCfgHandlerForConfigMapEvent
 		var reconciler *NodeSLOReconciler
+		var apiClient *c20Client                  // holds the nodes and (delivered mode) the stored NodeSLO objects
 		build := func(cached *corev1.ConfigMap) { // as SetupWithManager does
 			cl := &c20Client{cm: cached, nodes: nodes}
+			apiClient = cl
 			handler = NewSLOCfgHandlerForConfigMapEvent(cl, DefaultSLOCfg(), &record.FakeRecorder{})
 			reconciler = &NodeSLOReconciler{Client: cl, sloCfgCache: handler, Scheme: scheme.Scheme, Recorder: &record.FakeRecorder{}}
 		}
 		q := &c20Queue{}
 		ctx := context.Background()
+		// what is delivered to node i now: the computed spec, or (delivered mode) the spec of the NodeSLO object stored
+		// after the real Reconcile
+		observe := func(i int, old *slov1alpha1.NodeSLOSpec) *slov1alpha1.NodeSLOSpec {
+			if delivered {
+				req := reconcile.Request{NamespacedName: types.NamespacedName{Name: nodes[i].Name}}
+				if _, err := reconciler.Reconcile(ctx, req); err != nil {
+					t.Fatalf("Reconcile(%s): %v", nodes[i].Name, err)
+				}
+				stored := &slov1alpha1.NodeSLO{}
+				if err := apiClient.Get(ctx, req.NamespacedName, stored); err != nil {
+					t.Fatalf("stored NodeSLO %s: %v", nodes[i].Name, err)
+				}
+				return &stored.Spec
+			}
+			spec, err := reconciler.getNodeSLOSpec(nodes[i], old)
+			if err != nil {
+				t.Fatalf("getNodeSLOSpec: %v", err)
+			}
+			return spec
+		}
+		ntDelivered := false
 		var lastCM *corev1.ConfigMap // the object the informer delivered last (nil: none / deleted)
 		var hist []string
 		var fl c20Flags
@@ -1490,18 +1590,40 @@ func c20Run(t *testing.T, focusID string, restore bool) {
 			} else if restore && rapid.IntRange(0, 9).Draw(t, "deleteR") >= 8 {
 				kind = "delete"
 			}
+			if delivered && kind == "update" && !state[focus.id].malformed && rapid.IntRange(0, 9).Draw(t, "relabel") >= 7 {
+				kind = "relabel"
+			}
 			c.Class("event:" + kind)
+
+			if kind == "relabel" { // a node's labels change; the ConfigMap does not
+				i := rapid.IntRange(0, len(nodes)-1).Draw(t, "relabelNode")
+				before := -1
+				if st := state[focus.id]; st.present {
+					if m := focus.expect(st.cfg, nodeLabels[i]).matching; len(m) > 0 {
+						before = m[0]
+					}
+				}
+				nodeLabels[i] = c20GenLabels(t, "relabel", 50)
+				nodes[i].Labels = nodeLabels[i]
+				after := -1
+				if st := state[focus.id]; st.present {
+					if m := focus.expect(st.cfg, nodeLabels[i]).matching; len(m) > 0 {
+						after = m[0]
+					}
+				}
+				c.ClassIf(before >= 0 && after < 0, "relabel:node-leaves-every-entry")
+				c.ClassIf(before >= 0 && after >= 0 && before != after, "relabel:node-moves-to-another-entry")
+				c.ClassIf(before < 0 && after >= 0, "relabel:node-enters-an-entry")
+				hist = append(hist, fmt.Sprintf("#%d relabel node%d -> %v", ev, i, nodeLabels[i]))
+			}
 
 			if kind == "delete" {
 				handler.Delete(ctx, event.TypedDeleteEvent[client.Object]{Object: lastCM}, q)
 				lastCM = nil
 				hist = append(hist, fmt.Sprintf("#%d delete", ev))
 				// the statement says nothing about a deleted ConfigMap: only observe what is effective now
-				for i, node := range nodes {
-					spec, err := reconciler.getNodeSLOSpec(node, oldSpecs[i])
-					if err != nil {
-						t.Fatalf("getNodeSLOSpec: %v", err)
-					}
+				for i := range nodes {
+					spec := observe(i, oldSpecs[i])
 					act := focus.actual(spec)
 					c.ClassIf(c20LeavesEq(act, prev[i]), "after-delete:unchanged")
 					prev[i], oldSpecs[i] = act, spec
@@ -1516,7 +1638,7 @@ func c20Run(t *testing.T, focusID string, restore bool) {
 			focusWasPresent := state[focus.id].present
 			var data map[string]string
 			var summary []string
-			if kind != "startup-no-cm" {
+			if kind != "startup-no-cm" && kind != "relabel" {
 				data = map[string]string{}
 				// the focused section's mode is drawn first: a "toggle" version leaves the other sections textually
 				// unchanged (most of the time), so that the two ConfigMap versions differ in nothing else
@@ -1636,7 +1758,9 @@ func c20Run(t *testing.T, focusID string, restore bool) {
 					data = nil
 				}
 			}
-			hist = append(hist, fmt.Sprintf("#%d %s %s", ev, kind, strings.Join(summary, " ")))
+			if kind != "relabel" {
+				hist = append(hist, fmt.Sprintf("#%d %s %s", ev, kind, strings.Join(summary, " ")))
+			}
 
 			// ---- deliver it
 			switch kind {
@@ -1667,15 +1791,12 @@ func c20Run(t *testing.T, focusID string, restore bool) {
 			} else if sawMalformed && st.present && st.mode != "same" {
 				sawFixAfterMalformed = true
 			}
-			for i, node := range nodes {
+			for i := range nodes {
 				var old *slov1alpha1.NodeSLOSpec
-				if oldSpecs[i] != nil && rapid.Bool().Draw(t, "passOldSpec") {
+				if !delivered && oldSpecs[i] != nil && rapid.Bool().Draw(t, "passOldSpec") {
 					old = oldSpecs[i].DeepCopy() // Reconcile passes the spec of the existing NodeSLO
 				}
-				spec, err := reconciler.getNodeSLOSpec(node, old)
-				if err != nil {
-					t.Fatalf("getNodeSLOSpec: %v", err)
-				}
+				spec := observe(i, old)
 				act := focus.actual(spec)
 				where := func() string {
 					return fmt.Sprintf("node labels=%v after event #%d; delivered %s=%s; history:\n  %s", nodeLabels[i], ev, focus.id, c20LeavesStr(act), strings.Join(hist, "\n  "))
@@ -1723,12 +1844,17 @@ func c20Run(t *testing.T, focusID string, restore bool) {
 						if st.mode == "restore" { // only in the re-apply histories
 							sig += ":on-reapplied-identical-text"
 						}
+						if old, had := prev[i][p]; delivered && oldSpecs[i] != nil && had == hasA && (!had || c20ValEq(old, a)) {
+							sig += ":stored-nodeslo-keeps-previous-value"
+						}
 						// a known (recorded) finding is counted by vk; the remaining paths and events are still judged,
 						// because everything later is compared with what the real code delivered
 						c.Violation(t, sig, "path %s: expected %s (from %s), delivered %s; matching entries %v, entries with invalid selector %v; %s",
 							p, c20ValStr(e.val, hasE), want, c20ValStr(a, hasA), view.matching, view.invalid, where())
 					}
 					c.ClassIf(inherited, "list-overlaid-elementwise(tolerated)")
+					c.ClassIf(inherited && c20InheritedOtherName, "list-overlaid-elementwise:element-inherits-from-differently-named-element(tolerated)")
+					c20InheritedOtherName = false
 					// classes
 					switch len(view.matching) {
 					case 0:
@@ -1775,6 +1901,15 @@ func c20Run(t *testing.T, focusID string, restore bool) {
 					}
 					c.ClassIf(len(view.invalid) > 0, "invalid-selector-entry")
 				}
+				if delivered && oldSpecs[i] != nil { // update path: a NodeSLO was stored before
+					for p := range prev[i] {
+						if _, still := act[p]; !still { // the stored object had to LOSE a value
+							ntDelivered = true
+							c.Class("delivered:stored-spec-loses-a-leaf")
+						}
+					}
+					c.ClassIf(!c20LeavesEq(prev[i], act), "delivered:stored-spec-changes")
+				}
 				if restore && st.mode == "restore" && !st.malformed && !focusWasPresent && !c20LeavesEq(act, focus.defaults) {
 					// the section was gone (key removed or ConfigMap deleted) and its earlier text, which yields
 					// non-default settings for this node, is back
@@ -1798,6 +1933,9 @@ func c20Run(t *testing.T, focusID string, restore bool) {
 		if restore {
 			nt = ntRestore
 		}
+		if delivered {
+			nt = ntDelivered
+		}
 		if nt {
 			c.NonTrivial(nodeLabels, ntKey, focus.id)
 		}
@@ -1807,13 +1945,223 @@ func c20Run(t *testing.T, focusID string, restore bool) {
 	})
 }
 
-func TestVerifC20Threshold(t *testing.T)   { c20Run(t, "threshold", false) }
-func TestVerifC20ResourceQOS(t *testing.T) { c20Run(t, "qos", false) }
-func TestVerifC20CPUBurst(t *testing.T)    { c20Run(t, "cpuburst", false) }
-func TestVerifC20System(t *testing.T)      { c20Run(t, "system", false) }
-func TestVerifC20HostApp(t *testing.T)     { c20Run(t, "hostapp", false) }
+func TestVerifC20Threshold(t *testing.T)   { c20Run(t, "threshold", "") }
+func TestVerifC20ResourceQOS(t *testing.T) { c20Run(t, "qos", "") }
+func TestVerifC20CPUBurst(t *testing.T)    { c20Run(t, "cpuburst", "") }
+func TestVerifC20System(t *testing.T)      { c20Run(t, "system", "") }
+func TestVerifC20HostApp(t *testing.T)     { c20Run(t, "hostapp", "") }
 
 // Longer histories in which a section key (or the whole ConfigMap) is removed and an earlier text of the section is
 // applied again byte for byte; the judged section is drawn per case. Same oracle: after EVERY event the layering is
 // computed from the current ConfigMap text only.
-func TestVerifC20Reapply(t *testing.T) { c20Run(t, "", true) }
+func TestVerifC20Reapply(t *testing.T) { c20Run(t, "", "reapply") }
+
+// The delivered object: real Reconcile against a client that keeps the stored NodeSLO between reconciles; the spec READ
+// BACK from the stored object is judged after every ConfigMap event and every node relabel. Same oracle.
+func TestVerifC20Delivered(t *testing.T) { c20Run(t, "", "delivered") }
+
+// ---------------------------------------------------------------- start-up: first reconcile vs. a ConfigMap event
+
+// c20GenVersion draws one ConfigMap version (all five sections). The judged section of the SECOND version is never
+// malformed (its expectation would depend on which version counts as "previous").
+func c20GenVersion(t *rapid.T, secs []*c20Section, focus *c20Section, hot map[string][]int, nodeLabels []map[string]string,
+	prev map[string]*c20SecState, fl *c20Flags) (map[string]*c20SecState, map[string]string) {
+	states, data := map[string]*c20SecState{}, map[string]string{}
+	for _, s := range secs {
+		full := s == focus
+		var modes []string
+		switch {
+		case prev == nil && full:
+			modes = []string{"valid", "valid", "valid", "absent", "malformed", "empty"}
+		case prev == nil:
+			modes = []string{"absent", "valid", "malformed"}
+		case full:
+			modes = []string{"valid", "valid", "valid", "absent", "empty"}
+			if old := prev[s.id]; old.present && !old.malformed {
+				modes = append(modes, "toggle", "toggle")
+			}
+		default:
+			modes = []string{"absent", "valid", "malformed", "same", "same"}
+		}
+		mode := rapid.SampledFrom(modes).Draw(t, "raceMode_"+s.id)
+		st := &c20SecState{mode: mode}
+		flags := &c20Flags{}
+		if full {
+			flags = fl
+		}
+		switch mode {
+		case "same":
+			*st = *prev[s.id]
+			st.mode = "same"
+		case "toggle":
+			if cfg, _, ok := s.toggle(t, prev[s.id].cfg); ok {
+				st.present, st.cfg, st.text = true, cfg, s.text(cfg)
+				break
+			}
+			st.mode = "valid"
+			fallthrough
+		case "valid":
+			st.present = true
+			st.cfg = s.genCfg(t, full, hot[s.id], nodeLabels, flags)
+			st.text = s.text(st.cfg)
+		case "empty":
+			st.present, st.text, st.cfg = true, "{}", &c20SecCfg{}
+		case "malformed":
+			st.present, st.malformed = true, true
+			st.text, _ = s.malformed(t, s.genCfg(t, false, hot[s.id], nodeLabels, &c20Flags{}))
+		}
+		states[s.id] = st
+		if st.present {
+			data[s.key] = st.text
+		}
+	}
+	return states, data
+}
+
+// TestVerifC20StartupRace: at controller start-up the first Reconcile finds the cache "not available" and
+// IsCfgAvailable reads the ConfigMap from the informer cache and syncs it. A ConfigMap create/update event can arrive
+// exactly between that read and the sync. The harness owns the interleaving: the client's Get (called by
+// IsCfgAvailable) first returns the OLD object, then the informer cache moves to the NEW version and the real event
+// handler is invoked - inline if nobody holds the cache lock at that moment (the handler could run), otherwise in a
+// goroutine that is joined after IsCfgAvailable returned (the handler has to wait for the lock). At quiescence the
+// settings delivered to every node must be the layering of the NEWEST ConfigMap version.
+func TestVerifC20StartupRace(t *testing.T) {
+	c20Quiet()
+	secs := c20AllSections()
+	rec := vk.New(t, "C20", "startuprace")
+	rapid.Check(t, func(t *rapid.T) {
+		c := rec.Begin()
+		defer c.End()
+		focus := secs[rapid.IntRange(0, len(secs)-1).Draw(t, "focusSection")]
+		c.Class("focus:" + focus.id)
+		nodeLabels := []map[string]string{c20GenLabels(t, "n0", 80), c20GenLabels(t, "n1", 50), {}}
+		nodes := make([]*corev1.Node, len(nodeLabels))
+		for i, l := range nodeLabels {
+			nodes[i] = &corev1.Node{ObjectMeta: metav1.ObjectMeta{Name: fmt.Sprintf("node%d", i), Labels: l}}
+		}
+		hot := map[string][]int{}
+		for _, s := range secs {
+			if s.list {
+				continue
+			}
+			n := rapid.IntRange(2, 5).Draw(t, "hotN_"+s.id)
+			for i := 0; i < n; i++ {
+				hot[s.id] = append(hot[s.id], rapid.IntRange(0, len(s.slots)-1).Draw(t, "hot_"+s.id))
+			}
+		}
+		var fl c20Flags
+		// version 1: what the informer cache holds when the first reconcile starts (possibly no ConfigMap at all)
+		hasV1 := rapid.IntRange(0, 4).Draw(t, "hasV1") > 0
+		var st1 map[string]*c20SecState
+		var cm1 *corev1.ConfigMap
+		if hasV1 {
+			var data map[string]string
+			st1, data = c20GenVersion(t, secs, focus, hot, nodeLabels, nil, &fl)
+			cm1 = c20ConfigMap(data, 1)
+		} else {
+			st1 = map[string]*c20SecState{}
+			for _, s := range secs {
+				st1[s.id] = &c20SecState{mode: "absent"}
+			}
+		}
+		// version 2: created / updated while the first reconcile is between its check and its sync
+		st2, data2 := c20GenVersion(t, secs, focus, hot, nodeLabels, st1, &fl)
+		cm2 := c20ConfigMap(data2, 2)
+		interleave := rapid.IntRange(0, 9).Draw(t, "interleave") > 0
+
+		cl := &c20Client{cm: cm1, nodes: nodes}
+		handler := NewSLOCfgHandlerForConfigMapEvent(cl, DefaultSLOCfg(), &record.FakeRecorder{})
+		reconciler := &NodeSLOReconciler{Client: cl, sloCfgCache: handler, Scheme: scheme.Scheme, Recorder: &record.FakeRecorder{}}
+		q := &c20Queue{}
+		ctx := context.Background()
+		deliver := func() { // the informer: store first, then notify the handler
+			cl.cm = cm2
+			if hasV1 {
+				handler.Update(ctx, event.TypedUpdateEvent[client.Object]{ObjectOld: cm1.DeepCopy(), ObjectNew: cm2.DeepCopy()}, q)
+			} else {
+				handler.Create(ctx, event.TypedCreateEvent[client.Object]{Object: cm2.DeepCopy()}, q)
+			}
+		}
+		var wg sync.WaitGroup
+		inline := false
+		if interleave {
+			cl.onConfigMapGet = func() {
+				if handler.cfgCache.lock.TryLock() { // nobody holds the cache lock: the event handler runs right now
+					handler.cfgCache.lock.Unlock()
+					inline = true
+					deliver()
+					return
+				}
+				wg.Add(1) // the lock is held across the read: the event handler has to wait until it is released
+				go func() {
+					defer wg.Done()
+					deliver()
+				}()
+			}
+		}
+		if !reconciler.sloCfgCache.IsCfgAvailable() { // Reconcile's first step
+			t.Fatalf("configuration cache not available")
+		}
+		wg.Wait()
+		if !interleave {
+			deliver() // control: the event arrives after the first reconcile
+		}
+		c.ClassIf(!hasV1, "v1:no-configmap")
+		c.ClassIf(hasV1, "v1:configmap-in-informer-cache")
+		c.Class("v1-section:" + st1[focus.id].mode)
+		c.Class("v2-section:" + st2[focus.id].mode)
+		c.ClassIf(!interleave, "event-after-first-reconcile(control)")
+		c.ClassIf(interleave && inline, "event-inside-window:handler-ran-at-once(lock free)")
+		c.ClassIf(interleave && !inline, "event-inside-window:handler-waited-for-the-lock")
+
+		differs := false
+		for i, node := range nodes {
+			spec, err := reconciler.getNodeSLOSpec(node, nil)
+			if err != nil {
+				t.Fatalf("getNodeSLOSpec: %v", err)
+			}
+			act := focus.actual(spec)
+			want := func(st *c20SecState) map[string]c20Exp {
+				if !st.present || st.malformed { // absent, or unparsable at start-up: built-in defaults
+					out := map[string]c20Exp{}
+					for p, x := range focus.defaults {
+						out[p] = c20Exp{val: x, src: "default"}
+					}
+					return out
+				}
+				return focus.expect(st.cfg, nodeLabels[i]).exp
+			}
+			exp2 := want(st2[focus.id])
+			view := focus.expect(&c20SecCfg{}, nodeLabels[i])
+			if st := st2[focus.id]; st.present {
+				view = focus.expect(st.cfg, nodeLabels[i])
+			}
+			bad, _ := c20Diff(exp2, act)
+			if len(bad) > 0 && view.explicitNull && len(act) == 0 {
+				bad = nil
+			}
+			old, _ := c20Diff(want(st1[focus.id]), act)
+			if len(old) > 0 {
+				differs = true
+			}
+			if len(bad) > 0 {
+				sig := "startup-race:" + focus.id + ":not-the-newest-configmap"
+				if len(old) == 0 {
+					sig += ":older-version-in-force"
+				}
+				p := bad[0]
+				e, hasE := exp2[p]
+				a, hasA := act[p]
+				c.Violation(t, sig, "path %s: the newest ConfigMap version gives %s, delivered %s; node labels=%v; interleaved=%v (handler ran inside the window=%v)\n  v1 (read by the first reconcile): %v %q\n  v2 (event during the first reconcile): %q\n  delivered %s=%s",
+					p, c20ValStr(e.val, hasE), c20ValStr(a, hasA), nodeLabels[i], interleave, inline, hasV1, st1[focus.id].text, st2[focus.id].text, focus.id, c20LeavesStr(act))
+			}
+		}
+		// non-trivial: the event fell into the window and the two versions give some node different settings
+		if interleave && differs {
+			c.NonTrivial(nodeLabels, st1[focus.id].text, st2[focus.id].text, focus.id)
+		}
+		if c.WantSample() {
+			c.Sample(map[string]any{"nodeLabels": nodeLabels, "v1": st1[focus.id].text, "hasV1": hasV1, "v2": st2[focus.id].text, "interleave": interleave})
+		}
+	})
+}
